@@ -236,6 +236,39 @@ pub fn raw_sample_duration(start: u64, end: u64, frequency: u64) -> u128 {
     .picos
 }
 
+/// `Timestamp::duration_since` through its OS arm: two `Instant`s at the given
+/// offsets from a common base instant. `None` when the platform's `Instant`
+/// cannot represent an offset.
+pub fn os_timestamp_duration_since(later: Duration, earlier: Duration) -> Option<u128> {
+    let base = std::time::Instant::now();
+    let later = base.checked_add(later)?;
+    let earlier = base.checked_add(earlier)?;
+    Some(
+        crate::time::Timestamp::Os(later)
+            .duration_since(crate::time::Timestamp::Os(earlier), Timer::Os)
+            .picos,
+    )
+}
+
+/// `RawSample::duration` of a sample taken with the OS timer at the given
+/// offsets from a common base instant.
+pub fn os_raw_sample_duration(start: Duration, end: Duration) -> Option<u128> {
+    let base = std::time::Instant::now();
+    let start = base.checked_add(start)?;
+    let end = base.checked_add(end)?;
+    Some(
+        crate::stats::RawSample {
+            start: crate::time::Timestamp::Os(start),
+            end: crate::time::Timestamp::Os(end),
+            timer: Timer::Os,
+            alloc_info: ThreadAllocInfo::new(),
+            counter_totals: [0; KnownCounterKind::COUNT],
+        }
+        .duration()
+        .picos,
+    )
+}
+
 pub fn fine_duration_from(duration: Duration) -> u128 {
     FineDuration::from(duration).picos
 }
